@@ -59,6 +59,16 @@ class Verifier:
             return self.interp.last_top_env[name]
         self.interp.ghost_frames = []
 
+        def _when(cond, inst):
+            """guarded use of a lemma: its hypotheses are only required, and its claim only assumed, under cond"""
+            import z3
+            from . import ops
+            from .lemma import LemmaInstance
+            from .values import is_symbolic
+            c = ops.z3bool(cond) if is_symbolic(cond) else z3.BoolVal(bool(cond))
+            return LemmaInstance(inst.name, z3.Implies(c, inst.pre), z3.Implies(c, inst.claim))
+        self.interp.spec_env['when'] = _when
+
         def _effect(name, k=0):
             """positional arguments of the k-th recorded call whose name ends with `name`"""
             hits = [e for e in self.interp.effects if e[0].endswith(name)]
